@@ -3,6 +3,8 @@ package values
 import (
 	"reflect"
 	"sort"
+
+	yaml "gopkg.in/yaml.v2"
 )
 
 // Sort any []any value.
@@ -53,16 +55,8 @@ func (s sortableByProperty) Swap(i, j int) {
 func (s sortableByProperty) Less(i, j int) bool {
 	// index returns the value at s.key, if in is a map that contains this key
 	index := func(i int) any {
-		value := ToLiquid(s.data[i])
-		rt := reflect.ValueOf(value)
-		if rt.Kind() == reflect.Map && rt.Type().Key().Kind() == reflect.String {
-			// the key type may be a named string type (map[Title]T)
-			elem := rt.MapIndex(reflect.ValueOf(s.key).Convert(rt.Type().Key()))
-			if elem.IsValid() {
-				return ToLiquid(elem.Interface())
-			}
-		}
-		return nil
+		v, _ := RecordEntry(s.data[i], s.key)
+		return v
 	}
 	a, b := index(i), index(j)
 	switch {
@@ -74,4 +68,34 @@ func (s sortableByProperty) Less(i, j int) bool {
 		return !s.nilFirst
 	}
 	return Less(a, b)
+}
+
+// RecordEntry returns the entry that the record item (a map with string keys of any string type, a map with
+// interface keys, or an ordered map; possibly behind a Drop) has under key, with Drops resolved.
+func RecordEntry(item any, key string) (any, bool) {
+	value := ToLiquid(item)
+	if ms, ok := value.(yaml.MapSlice); ok {
+		for _, e := range ms {
+			if k, ok := ToLiquid(e.Key).(string); ok && k == key {
+				return ToLiquid(e.Value), true
+			}
+		}
+		return nil, false
+	}
+	rt := reflect.ValueOf(value)
+	if rt.Kind() != reflect.Map {
+		return nil, false
+	}
+	var elem reflect.Value
+	switch kt := rt.Type().Key(); kt.Kind() {
+	case reflect.String:
+		// the key type may be a named string type (map[Title]T)
+		elem = rt.MapIndex(reflect.ValueOf(key).Convert(kt))
+	case reflect.Interface:
+		elem = rt.MapIndex(reflect.ValueOf(key))
+	}
+	if !elem.IsValid() {
+		return nil, false
+	}
+	return ToLiquid(elem.Interface()), true
 }
